@@ -2,6 +2,7 @@
 import collections, json, os, random, re, time
 from vlib import *  # noqa
 from fam_funcs import run_funcs  # noqa
+from fam_client import run_client  # noqa
 
 BAG = {
     "pubsub": '<<"join","sub","sub","unsub","pub","pub","pub","leave">>',
@@ -112,6 +113,21 @@ PROPS = {
                 classes=["sess", "pubsub", "details", "meta", "metaapi", "rpcroute", "rpcreply"], poison=True),
     "C04": dict(family="hostile", classes=["sess", "pubsub", "rpcreply", "rpcroute", "rpcintr", "metaapi", "meta"]),
     "C19": dict(family="funcs"),
+    "C16": dict(family="client",
+                conc=dict(inv=["OwnReply", "AtMostOnce", "NoLeftover"], props=["CloseReturns", "ApisReturn", "RunMovesOn"],
+                          quick=dict(napi=2, nreplies=2), thorough=dict(napi=3, nreplies=2),
+                          devs={"DevStrandedReply": "RunMovesOn"}),
+                gen=[dict(bag="api", depth=18, quick=150, thorough=2500),
+                     dict(bag="time", depth=16, quick=120, thorough=2000),
+                     dict(bag="inv", depth=18, quick=120, thorough=2000)]),
+    "C17": dict(family="client", hostile_enum=True,
+                conc=dict(inv=["OwnReply", "AtMostOnce", "NoLeftover"], props=["CloseReturns", "ApisReturn", "RunMovesOn"],
+                          quick=dict(napi=2, nreplies=2), thorough=dict(napi=3, nreplies=2),
+                          devs={"DevStrandedReply": "CloseReturns"}),
+                gen=[dict(bag="hostile", depth=18, quick=120, thorough=2000),
+                     dict(bag="shutdown", depth=16, quick=100, thorough=1500),
+                     dict(bag="dupinv", depth=18, quick=80, thorough=1500),
+                     dict(bag="time", depth=16, quick=60, thorough=1000)]),
     "C09": dict(family="core",
                 mcx=dict(module="MCHs", spec="MCSpec",
                          inv=["C09_WelcomeOnlyIfJustified", "C09_AttachedIffWelcomed", "C09_RejectedInert", "C09_AbortedOrClosed", "C09_Identity"],
